@@ -171,15 +171,16 @@ CClose ==      \* close(c); the sentinel ends the collector
     /\ UNCHANGED <<rpc, rnext, rerr, q, dpc, ccur, skip, data, dataVal, upc, got, latched, result>>
 
 \* ---- consumer --------------------------------------------------------------------
-URecv ==       \* r.data = <-r.reads; a zero-length result makes the consumer ask for the latched error
+URecv ==       \* r.data, ok = <-r.reads; only the closed channel makes the consumer ask for the latched error
+               \* (before fix 062dfed an empty block did too, and with a decoding error already latched the
+               \* consumer left while the collector was still delivering: TLC's counterexample to NoGoroutineLeft
+               \* at N = 4, Num = 3, DecodeFailAt = 4, EmptyBlocks = {1}, reproduced on the code as D25)
     /\ upc = "recv"
     /\ \/ /\ data = "full"
           /\ got' = Append(got, dataVal)
           /\ data' = "empty"
-          /\ IF dataVal \in EmptyBlocks /\ latched # "none"
-             THEN result' = latched /\ upc' = "done"          \* an empty block while an error / the end is latched
-             ELSE UNCHANGED <<upc, result>>
-       \/ /\ data = "closed"                                      \* nil: ask for the latched error
+          /\ UNCHANGED <<upc, result>>
+       \/ /\ data = "closed"                                      \* !ok: ask for the latched error
           /\ result' = latched
           /\ upc' = "done"
           /\ UNCHANGED <<got, data>>
@@ -211,15 +212,14 @@ FinalResult ==
 
 \* C08 leak clause: once the consumer has been told the end / the error, no goroutine of the pipeline is
 \* blocked: reader and collector have finished, every decoder has finished or can finish on its own
-\* (the consumer may stop one step early, on a trailing empty block; then the others still have a few
-\* steps to run, none of which needs the consumer)
 NoGoroutineLeft ==
     upc = "done" =>
-        \/ /\ rpc = "done" /\ cpc = "done"
-           /\ \A i \in Blocks : dpc[i] \in {"idle", "done"} \/ (dpc[i] = "offered" /\ chan[i] \in {"taken", "closed"})
-        \/ /\ got # <<>> /\ got[Len(got)] \in EmptyBlocks
-           /\ cpc \notin {"deliver"} /\ data # "full"
-           /\ \A i \in Blocks : i > got[Len(got)] /\ dpc[i] # "idle" => result # "eof"
+        /\ rpc = "done" /\ cpc = "done"
+        /\ \A i \in Blocks : dpc[i] \in {"idle", "done"} \/ (dpc[i] = "offered" /\ chan[i] \in {"taken", "closed"})
+
+\* every block before the failing one is delivered before the decoding error is reported
+DeliveredBeforeError ==
+    upc = "done" /\ result = "decode" /\ SourceFailAt = 0 => Len(got) = DecodeFailAt - 1
 
 EventuallyAllDone == <>AllDone
 =============================================================================
